@@ -12,15 +12,15 @@ vp_iface  vp_ifaces[VP_MAX_IFACE];
 vp_global vp_glob;
 uint64_t  vp_clock_ms = 0;
 uint8_t   vp_poison = 0xA5;
-FILE     *vp_out = NULL;
+VP_TL FILE *vp_out = NULL;
 
-size_t   vp_last_malloc_sizes[16];
-unsigned vp_last_malloc_n = 0;
+VP_TL size_t   vp_last_malloc_sizes[16];
+VP_TL unsigned vp_last_malloc_n = 0;
 
 /* ---------------- ledger: open-addressing table ptr -> size ---------------- */
 #define LG_CAP (1u << 20)
-static struct { void *p; size_t n; } *lg_tab;
-static size_t lg_live = 0, lg_bytes = 0, lg_high = 0;
+static VP_TL struct { void *p; size_t n; } *lg_tab;
+static VP_TL size_t lg_live = 0, lg_bytes = 0, lg_high = 0;
 
 static size_t lg_slot(void *p) {
     uintptr_t x = (uintptr_t)p;
@@ -61,7 +61,7 @@ size_t vp_high_bytes(void) { return lg_high; }
 
 /* ---------------- fault schedule ---------------- */
 #define MAXF 64
-static unsigned long malloc_calls = 0, send_calls = 0, faults_fired = 0;
+static VP_TL unsigned long malloc_calls = 0, send_calls = 0, faults_fired = 0;
 static unsigned long fail_m[MAXF]; static unsigned n_fail_m = 0; static int fail_m_all = 0;
 static unsigned long fail_s[MAXF]; static unsigned n_fail_s = 0; static int fail_s_all = 0;
 
@@ -121,8 +121,8 @@ int lltd_port_memcmp(const void *a, const void *b, size_t n) { return memcmp(a, 
 void lltd_port_sleep_ms(uint32_t ms) { fprintf(vp_out, "sleep %u\n", ms); }
 
 #define VP_TXMAX 1024
-struct vp_txrec vp_prev_tx[VP_TXMAX], vp_cur_tx[VP_TXMAX];
-unsigned vp_prev_tx_n = 0, vp_cur_tx_n = 0;
+VP_TL struct vp_txrec vp_prev_tx[VP_TXMAX], vp_cur_tx[VP_TXMAX];
+VP_TL unsigned vp_prev_tx_n = 0, vp_cur_tx_n = 0;
 void vp_rotate_tx(void) {
     for (unsigned i = 0; i < vp_prev_tx_n; i++) free(vp_prev_tx[i].data);
     memcpy(vp_prev_tx, vp_cur_tx, sizeof(vp_cur_tx[0]) * vp_cur_tx_n);
@@ -224,6 +224,6 @@ int lltd_port_get_wifi_rssi_dbm(void *ctx, int8_t *out) {
 }
 int lltd_port_get_wifi_phy_medium(void *ctx, uint32_t *out) { (void)ctx; if (out) *out = 0; return -1; }
 
-static unsigned long log_calls = 0;
+static VP_TL unsigned long log_calls = 0;
 void lltd_port_log_debug(const char *fmt, ...) { (void)fmt; log_calls++; }
 void lltd_port_log_warning(const char *fmt, ...) { (void)fmt; log_calls++; }
